@@ -721,7 +721,7 @@ class SharesManager(BaseManager):
         # Regular expressions on the remaining items
 
         to_keep = set()
-        excl_phrases = excluded_search_phrases or []
+        excl_phrases = [phrase.lower() for phrase in excluded_search_phrases or []]
         for found_item in found_items:
 
             if not all(matcher(found_item.get_query_path()) for matcher in search_query.matchers_iter()):
